@@ -14,6 +14,7 @@ from sim import world as Wd
 
 ID = 'C15'
 LEVEL = 'fault_enumeration'
+EVAL_PROBE = 'crash-states'
 ENGINE = 'crash'
 BUDGET = {'quick': 900, 'thorough': 20000}
 WALL = {'quick': 50, 'thorough': 1800}
